@@ -25,6 +25,7 @@ Definition check_case (c : case) : list N :=
       let r := run (render ext out tree) {| files := bf; dirs := bd |} in
       flag (ext_wf ext) 2
       ++ flag (ancestors_exist out {| files := bf; dirs := bd |}) 3
+      ++ flag (fs_pre ext out tree {| files := bf; dirs := bd |} && negb (is_nil out)) 3
       ++ flag (same_set entry_eqb (files (fst r)) af && same_set path_eqb (dirs (fst r)) ad
                && Bool.eqb (snd r) (negb failed)) 1
       ++ flag (no_creation_outside ext out bf af bd ad) 10
